@@ -54,6 +54,12 @@ CHECKS = {
  "C15": dict(level="exploration", ref="5 C15", tech="enumeration of activation alignments (0..143 for developer rewards, 0..61 for the first zeroing) over 450-900 block chains with a per-block tracker of the special addresses against the issuance schedule",
    text="After every committed block the balances of the 14 developer addresses, both burn addresses and the mint address are read; per-block deltas must equal the schedule (pct% of 2,000 PEG, x144 from 2.0.2, at every multiple of 144 from the activation; zeroings, mint and mint burn exactly at their heights for exactly the balance held / the listed amounts; nothing at any other height). Quick covers 54 of the 144 developer alignments, 80 zeroing configurations and 8 late-adjustment chains; thorough covers all.",
    note="The old burn address has the all-zero RCD hash: transfers to it are destroyed by this tree even before 2.0.2, so it can only hold mining rewards. Alignment 0 of the first zeroing cannot be synced (reported as inconclusive here; liveness is C08's)."),
+ "C04": dict(level="exploration", ref="5 C04", tech="per-address, per-asset, per-block accounting of whole chains against the sum of each block's protocol events recomputed from the chain content",
+   text="On both coverage chains and 114 edge-semantics batch chains, after every committed block the delta of every address in every asset must equal the sum of that block's events: grader-library rewards, valid burns, the inputs/outputs/conversion amounts of the entries whose execution height is this block (amounts recomputed from the entry content and recorded rates), PEG-request yields and refunds, and the one-time adjustments; burn-address outputs destroy value. About 1,100 (chain, block) evaluations.",
+   note="Execution heights are read from the recorded status (tied to effects by C17); PEG at snapshot heights belongs to C14/C15. The bank-era double credit is an open known finding."),
+ "C17": dict(level="exploration", ref="5 C17", tech="exhaustive walk of the real API handlers (status, every page of get-transactions by hash / address / height in both orders, balances) over synced chains, with a history-replay oracle",
+   text="After syncing the coverage chains, a paging chain (blocks with 50 coinbases + 12-transaction batches, an address with 130 actions, 60 stakers), a zeroing chain with coinciding mock transaction ids and edge-semantics batch chains, every key is walked through the real handlers (about 28,000 key walks): each recorded action exactly once per hash, address and height in both orders with a consistent count; status 0 only while a graded block can still come; replaying the executed actions returned by the API plus the exempt adjustments reproduces every balance returned by get-pegnet-balances.",
+   note="The handlers are reached through a build-tag-guarded exporter injected with -overlay."),
 }
 
 NOT_YET = {}
